@@ -10,6 +10,7 @@ import (
 	"fmt"
 	"math/rand"
 	"strings"
+	"sync/atomic"
 	"time"
 
 	"github.com/jamf/regatta/storage/kv"
@@ -151,6 +152,12 @@ func (rc *runCtx) gate(idx, op int) {
 	}
 }
 
+// watchdogs counts schedules that did not finish; after a few of them the exploration stops
+// scheduling new work (every further schedule would wait for the watchdog again).
+var watchdogs atomic.Int64
+
+const maxWatchdogs = 3
+
 const (
 	runOK = iota
 	runWatchdog
@@ -163,7 +170,7 @@ type runResult struct {
 	nopts    []int   // size of the enabled set, per decision
 	nodes    []uint8 // client chosen, per decision
 	trace    []step
-	outcomes [][]string // per node, per call: rendered return value
+	outcomes [][]byte // per node, per call: outcome code of the return value
 	viol     []violation
 	unsure   []string
 	overlap  bool
@@ -194,16 +201,37 @@ func (rr *runResult) steps() []string {
 	return out
 }
 
-func (rr *runResult) outcomeString() string {
-	var b strings.Builder
+// outcomeKey is the compact return-value vector; renderOutcomes makes it readable.
+func (rr *runResult) outcomeKey() string {
+	b := make([]byte, 0, 12)
 	for i, o := range rr.outcomes {
+		if i > 0 {
+			b = append(b, '|')
+		}
+		b = append(b, o...)
+	}
+	return string(b)
+}
+
+func renderOutcomes(key string) string {
+	var b strings.Builder
+	for i, part := range strings.Split(key, "|") {
 		if i > 0 {
 			b.WriteByte(' ')
 		}
-		fmt.Fprintf(&b, "n%d[%s]", i+1, strings.Join(o, " "))
+		fmt.Fprintf(&b, "n%d[", i+1)
+		for j := 0; j < len(part); j++ {
+			if j > 0 {
+				b.WriteByte(' ')
+			}
+			b.WriteString(renderOutcome(part[j]))
+		}
+		b.WriteByte(']')
 	}
 	return b.String()
 }
+
+func (rr *runResult) outcomeString() string { return renderOutcomes(rr.outcomeKey()) }
 
 // worker owns one set of real managers. table.NewManager starts GOMAXPROCS table-cache
 // goroutines that are never released, so managers are created once per worker, not per
@@ -228,7 +256,7 @@ func (w *worker) fresh() {
 	for i := 0; i < maxNodes; i++ {
 		cl := &client{idx: i + 1, node: uint64(i + 1)}
 		w.cls = append(w.cls, cl)
-		w.mgrs = append(w.mgrs, table.NewManager(nil, nil, cl, mgrConfig(uint64(i + 1))))
+		w.mgrs = append(w.mgrs, table.NewManager(nil, nil, cl, mgrConfig(uint64(i+1))))
 	}
 }
 
@@ -239,8 +267,10 @@ func mgrConfig(node uint64) table.Config {
 
 const tableName = "t"
 
-func doCall(mgr *table.Manager, cl *client, kind int, tbl string) string {
-	cl.beginCall(kind, tbl)
+var tableKey = leaseKey(tableName)
+
+func doCall(mgr *table.Manager, cl *client, kind int, tbl, key string) byte {
+	cl.beginCall(kind, key)
 	var (
 		ok  bool
 		err error
@@ -263,24 +293,26 @@ func (w *worker) run(sc script, choose func(depth int, enabled []int) int) *runR
 	rc := &runCtx{events: make(chan event), abort: make(chan struct{}), grants: make([]chan struct{}, n+1)}
 	mon := newMonitor(newLFSMBackend(), w.st, true)
 	mon.trace = make([]step, 0, 4*len(sc[0])*n)
-	rr := &runResult{outcomes: make([][]string, n)}
+	rr := &runResult{outcomes: make([][]byte, n)}
 	for i := 0; i < n; i++ {
 		rc.grants[i+1] = make(chan struct{})
 		cl := w.cls[i]
 		cl.m, cl.cur, cl.gate = mon, nil, rc.gate
 	}
 	for i := 0; i < n; i++ {
-		go func(i int) {
+		// mgr/cl are captured here: after a watchdog the worker gets fresh ones while the
+		// abandoned goroutines finish (or stay stuck) on the old ones
+		go func(i int, mgr *table.Manager, cl *client) {
 			for _, kind := range sc[i] {
-				rr.outcomes[i] = append(rr.outcomes[i], doCall(w.mgrs[i], w.cls[i], kind, tableName))
+				rr.outcomes[i] = append(rr.outcomes[i], doCall(mgr, cl, kind, tableName, tableKey))
 			}
 			select {
 			case rc.events <- event{node: i + 1, done: true}:
 			case <-rc.abort:
 			}
-		}(i)
+		}(i, w.mgrs[i], w.cls[i])
 	}
-	timer := time.NewTimer(30 * time.Second) // generous watchdog: a schedule takes microseconds
+	timer := time.NewTimer(20 * time.Second) // generous watchdog: a schedule takes microseconds
 	defer timer.Stop()
 	const (
 		sRunning = iota
@@ -289,6 +321,9 @@ func (w *worker) run(sc script, choose func(depth int, enabled []int) int) *runR
 	)
 	state := make([]int, n+1)
 	giveUp := func(status int) *runResult {
+		if status == runWatchdog {
+			watchdogs.Add(1)
+		}
 		close(rc.abort) // everything still parked free-runs to completion; results are discarded
 		w.fresh()       // the old managers/clients may still be in use by those goroutines
 		// rr may still be written by those goroutines: hand back a fresh result
@@ -365,6 +400,7 @@ type found struct {
 type scriptReport struct {
 	Family     string
 	Sc         script
+	ScStr      string
 	Schedules  int64
 	Exhaustive bool
 	Nontrivial int64            // schedules with overlapping read→write windows
@@ -375,6 +411,8 @@ type scriptReport struct {
 	Unsure     []string
 	Sample     map[string]any
 	MaxDepth   int
+
+	sampleScore int
 }
 
 func (rep *scriptReport) account(rr *runResult, ntKey func(string)) {
@@ -382,21 +420,31 @@ func (rep *scriptReport) account(rr *runResult, ntKey func(string)) {
 	if len(rr.nodes) > rep.MaxDepth {
 		rep.MaxDepth = len(rr.nodes)
 	}
-	o := rr.outcomeString()
+	o := rr.outcomeKey()
 	rep.Outcomes[o]++
 	if rr.overlap {
 		rep.Nontrivial++
 		if ntKey != nil {
-			ntKey(rep.Sc.String() + "|" + rr.sig())
+			ntKey(rep.ScStr + "|" + rr.sig())
 		}
-		if rep.Sample == nil {
-			rep.Sample = map[string]any{"script": rep.Sc.String(), "schedule": rr.steps(), "return_values": o}
+		// keep the most contended overlapping schedule as the script's sample
+		score := 1
+		for _, s := range rr.trace {
+			if s.res == resMismatch {
+				score += 2
+			} else if s.op != opGet {
+				score++
+			}
+		}
+		if score > rep.sampleScore {
+			rep.sampleScore = score
+			rep.Sample = map[string]any{"script": rep.ScStr, "schedule": rr.steps(), "return_values": renderOutcomes(o)}
 		}
 	}
 	for _, v := range rr.viol {
 		if rep.ViolCount[v.Sig] == 0 {
-			rep.Found = append(rep.Found, found{violation: v, Script: rep.Sc.String(), Calls: rep.Sc,
-				Schedule: rr.schedule(), Steps: rr.steps(), Outcomes: o})
+			rep.Found = append(rep.Found, found{violation: v, Script: rep.ScStr, Calls: rep.Sc,
+				Schedule: rr.schedule(), Steps: rr.steps(), Outcomes: renderOutcomes(o)})
 		}
 		rep.ViolCount[v.Sig]++
 	}
@@ -407,11 +455,89 @@ func (rep *scriptReport) account(rr *runResult, ntKey func(string)) {
 	}
 }
 
-// exploreDFS enumerates every schedule of sc.
-func (w *worker) exploreDFS(family string, sc script, ntKey func(string)) *scriptReport {
-	rep := &scriptReport{Family: family, Sc: sc, Exhaustive: true, Outcomes: map[string]int64{}, ViolCount: map[string]int64{}}
-	var prefix []int
-	bound := sc.bound()
+// subtrees lists the choice prefixes of length depth (or shorter, for schedules that end
+// earlier) that partition the schedule tree of sc, so that one script can be enumerated by
+// several workers. The discovery runs are not counted anywhere.
+func (w *worker) subtrees(sc script, depth int) ([][]int, bool) {
+	saved := w.st
+	w.st = newStats()
+	defer func() { w.st = saved }()
+	var out [][]int
+	ok := true
+	var rec func(p []int)
+	rec = func(p []int) {
+		if !ok {
+			return
+		}
+		if len(p) == depth {
+			out = append(out, append([]int{}, p...))
+			return
+		}
+		rr := w.run(sc, func(d int, enabled []int) int {
+			if d < len(p) {
+				return p[d]
+			}
+			return 0
+		})
+		if rr.status != runOK {
+			ok = false
+			return
+		}
+		if len(rr.nopts) <= len(p) {
+			out = append(out, append([]int{}, p...))
+			return
+		}
+		for c := 0; c < rr.nopts[len(p)]; c++ {
+			rec(append(append([]int{}, p...), c))
+		}
+	}
+	rec(nil)
+	return out, ok
+}
+
+func (rep *scriptReport) merge(o *scriptReport) {
+	rep.Schedules += o.Schedules
+	rep.Nontrivial += o.Nontrivial
+	rep.Distinct += o.Distinct
+	rep.Exhaustive = rep.Exhaustive && o.Exhaustive
+	if o.MaxDepth > rep.MaxDepth {
+		rep.MaxDepth = o.MaxDepth
+	}
+	for k, v := range o.Outcomes {
+		rep.Outcomes[k] += v
+	}
+	for _, f := range o.Found {
+		if rep.ViolCount[f.Sig] == 0 {
+			dup := false
+			for _, g := range rep.Found {
+				dup = dup || g.Sig == f.Sig
+			}
+			if !dup {
+				rep.Found = append(rep.Found, f)
+			}
+		}
+	}
+	for k, v := range o.ViolCount {
+		rep.ViolCount[k] += v
+	}
+	rep.Unsure = append(rep.Unsure, o.Unsure...)
+	if o.sampleScore > rep.sampleScore {
+		rep.Sample, rep.sampleScore = o.Sample, o.sampleScore
+	}
+}
+
+func newReport(family string, sc script, exhaustive bool) *scriptReport {
+	return &scriptReport{Family: family, Sc: sc, ScStr: sc.String(), Exhaustive: exhaustive, Outcomes: map[string]int64{}, ViolCount: map[string]int64{}}
+}
+
+// exploreDFS enumerates every schedule of sc that starts with the choices in fixed
+// (fixed = nil: the whole tree).
+// budget is shared by all subtree jobs of the script and starts at the combinatorial bound
+// (two store operations per call): a tree that turns out larger is not what the sizes were
+// planned for (e.g. a changed LeaseTable making three store operations) and is cut there.
+func (w *worker) exploreDFS(family string, sc script, fixed []int, budget *atomic.Int64, ntKey func(string)) *scriptReport {
+	rep := newReport(family, sc, true)
+	prefix := append([]int{}, fixed...)
 	for {
 		p := prefix
 		rr := w.run(sc, func(depth int, enabled []int) int {
@@ -429,17 +555,19 @@ func (w *worker) exploreDFS(family string, sc script, ntKey func(string)) *scrip
 			rep.Unsure = append(rep.Unsure, fmt.Sprintf("%s: %s after %d schedules", sc, why, rep.Schedules))
 			return rep
 		}
-		rep.account(rr, ntKey)
-		if float64(rep.Schedules) > bound {
+		if left := budget.Add(-1); left < 0 {
 			rep.Exhaustive = false
-			rep.Unsure = append(rep.Unsure, fmt.Sprintf("%s: more schedules than the combinatorial bound %.0f", sc, bound))
+			if left == -1 {
+				rep.Unsure = append(rep.Unsure, fmt.Sprintf("%s: more schedules than the combinatorial bound %.0f (calls make more than two store operations?); enumeration cut", sc, sc.bound()))
+			}
 			return rep
 		}
+		rep.account(rr, ntKey)
 		d := len(rr.choices) - 1
-		for d >= 0 && rr.choices[d]+1 >= rr.nopts[d] {
+		for d >= len(fixed) && rr.choices[d]+1 >= rr.nopts[d] {
 			d--
 		}
-		if d < 0 {
+		if d < len(fixed) {
 			break
 		}
 		prefix = append(append(prefix[:0:0], rr.choices[:d]...), rr.choices[d]+1)
@@ -450,7 +578,7 @@ func (w *worker) exploreDFS(family string, sc script, ntKey func(string)) *scrip
 
 // exploreWalks samples walks random schedules of sc (uniform choice at every decision).
 func (w *worker) exploreWalks(family string, sc script, seed int64, walks int, ntKey func(string)) *scriptReport {
-	rep := &scriptReport{Family: family, Sc: sc, Exhaustive: false, Outcomes: map[string]int64{}, ViolCount: map[string]int64{}}
+	rep := newReport(family, sc, false)
 	rng := rand.New(rand.NewSource(seed))
 	seen := map[string]struct{}{}
 	for k := 0; k < walks; k++ {
